@@ -9,7 +9,7 @@ LEAN_MODULES = ["CatiiProps.C10"]
 USES_TRANSLATOR = ['fit_dtype', 'consts']
 RULE = ("exhaustive: arity<=2, <=2 entries, 4 width classes for the largest coordinate x 4 for the common value, row-id "
         "lists from {[], [0], [0, 2^32-1]}; random: arity 1..4, 0..30 entries, magnitudes crossed over the four word "
-        "sizes, row-id lists of length 0..40 with values up to 2^32-1, the row-id arrays contiguous or non-contiguous views (step-2 slice, matrix column, reversed view); entries of 2^16-1 .. 2^17+5 row ids mixed with short ones in every order. Non-trivial = at least one entry; distinct by input")
+        "sizes, row-id lists of length 0..40 with values up to 2^32-1, the row-id arrays contiguous or non-contiguous views (step-2 slice, matrix column, reversed view); entries of 2^16-1 .. 2^17+5 row ids mixed with short ones in every order; 2^k-1, 2^k, 2^k+1 and 3*2^k ENTRIES (k = 8,12,13,14 quick; 4..16 thorough) at arity 1 and 2. Non-trivial = at least one entry; distinct by input")
 ASSUMPTIONS = ["NumPy tofile/ndarray(buffer=) read and write little-endian fixed-width words on this platform"]
 
 
@@ -79,6 +79,22 @@ def long_case(ctx, ld, case):
             [d[1] for d in case["long"]], bad), case, cls="C10-roundtrip")
 
 
+def many_case(ctx, ld, case):
+    entries = X.expand_many(case)
+    ctx.case(case, nontrivial=True)
+    ctx.hit("many_entries")
+    sv = X.impl_save(entries, case["common"], None)
+    if sv[0] != "ok":
+        ctx.oracle_fail("save raised %s" % sv[1], case, cls="C10-save-raises")
+        return
+    lo = ld.load(sv[1])
+    if lo[0] != "ok":
+        ctx.oracle_fail("load of a just-saved file of %d entries raised %s" % (case["many"], lo[1]), case, cls="C10-load-raises")
+    elif lo[1] != X.canon(entries) or lo[2] != case["common"]:
+        bad = [(k, r2) for (k, r), (k2, r2) in zip(X.canon(entries), lo[1]) if k != k2 or r != r2][:2]
+        ctx.oracle_fail("load(save(e, c)) != (e, c) for %d entries (first differing: %s)" % (case["many"], bad), case, cls="C10-roundtrip")
+
+
 def run(ctx):
     core.load_catii()
     ld = X.Loader()
@@ -103,6 +119,11 @@ def run(ctx):
                                      "common": 0, "arity": arity, "layout": lay}, reqs, pend)
         for fixed in (["s", "l"], ["l", "s"], ["s", "l", "s", "l"], None):
             long_case(ctx, ld, X.long_desc(ctx.rng, fixed))
+        # the NUMBER of entries on and around every power of two (block-wise decoding, batch sizes), and three times one
+        ks = (8, 12, 13, 14) if ctx.scale == 1 else range(4, 17)
+        for n in sorted(set([2 ** k + d for k in ks for d in (-1, 0, 1)] + [3 * 2 ** k for k in ks])):
+            for arity in (1, 2):
+                many_case(ctx, ld, {"many": n, "arity": arity, "common": 0})
         for _ in range(ctx.n(250)):
             check_case(ctx, ld, X.gen_case(ctx.rng), reqs, pend)
         if ctx.oracle_only:
@@ -123,6 +144,8 @@ def replay(ctx, rep):
     c = rep["case"]
     if "long" in c:
         c = dict(c, entries=X.expand_long(c))
+    if "many" in c:
+        c = dict(c, entries=X.expand_many(c))
     ld = X.Loader()
     try:
         sv = X.impl_save(c["entries"], c["common"], c.get("layout"), c.get("handle"))
